@@ -133,7 +133,15 @@ def sign_sequence(W, ev, signer_path, live=None):
         p = strip_generics(callee)
         if argi == 0 and p.startswith(SIGNER + "::"):
             args = ev.call_args(b)
-            out.append((p.split("::")[-1], args[1] if len(args) > 1 else None, b))
+            nm = p.split("::")[-1]
+            if nm == "update" and len(args) > 1:
+                # update(&[a, b].concat()) / update(&buffer built from a then b) feeds the same bytes as update(a); update(b)
+                from lib import byte_pieces
+                pcs = byte_pieces(W, args[1])
+                for pc in pcs:
+                    out.append(("update", pc, b))
+            else:
+                out.append((nm, args[1] if len(args) > 1 else None, b))
         elif fn.blocks[b].term["arg_tys"][argi].startswith("&mut"):
             out.append(("other:" + callee_name(callee), None, b))
     out.sort(key=lambda e: order.get(e[2], 10 ** 6))
